@@ -112,6 +112,12 @@ func (ex *Exec) stmt(s ast.Stmt) {
 	case *ast.GoStmt:
 		ex.unsupported = "goroutine start at " + ex.P.pos(x)
 	case *ast.DeferStmt:
+		if lit, isLit := unparen(x.Call.Fun).(*ast.FuncLit); isLit && isRecoverIdiom(lit) {
+			// defer func() { if r := recover(); r != nil { <set results> } }(): only runs its body on a panicking path, and
+			// panics are not control flow in this model (each panic site is its own safe: obligation), so returns are unaffected
+			ex.note("deferred recover(): panics below this frame become the error result (idiom recognised, normal paths unaffected)")
+			return
+		}
 		if _, isLit := unparen(x.Call.Fun).(*ast.FuncLit); isLit || len(ex.loops) > 0 {
 			ex.unsupported = "defer of a closure / inside a loop at " + ex.P.pos(x)
 			return
@@ -825,4 +831,37 @@ func (ex *Exec) storesThroughReference(e ast.Expr) bool {
 			return false
 		}
 	}
+}
+
+// isRecoverIdiom: func() { if r := recover(); r != nil { ... } }
+func isRecoverIdiom(lit *ast.FuncLit) bool {
+	if len(lit.Body.List) != 1 || len(lit.Type.Params.List) != 0 {
+		return false
+	}
+	ifs, ok := lit.Body.List[0].(*ast.IfStmt)
+	if !ok || ifs.Init == nil || ifs.Else != nil {
+		return false
+	}
+	as, ok := ifs.Init.(*ast.AssignStmt)
+	if !ok || len(as.Rhs) != 1 {
+		return false
+	}
+	c, ok := as.Rhs[0].(*ast.CallExpr)
+	if !ok {
+		return false
+	}
+	id, ok := c.Fun.(*ast.Ident)
+	return ok && id.Name == "recover"
+}
+
+// recovers: the function installs the recover idiom at the top level of its body
+func recovers(body *ast.BlockStmt) bool {
+	for _, s := range body.List {
+		if d, ok := s.(*ast.DeferStmt); ok {
+			if lit, ok := d.Call.Fun.(*ast.FuncLit); ok && isRecoverIdiom(lit) {
+				return true
+			}
+		}
+	}
+	return false
 }
